@@ -35,7 +35,8 @@ ACTIONS = ["Send", "TrySend", "WhenEmpty", "SendWake", "WhenFlushed", "FlushRet"
 
 QUICK = ["q1", "q2", "kill"]
 QUICK_EVERY = {"q1": 2, "q2": 5, "kill": 3}     # quick: seeded sample of the transitions
-THOROUGH = ["q1", "q2", "kill", "t1", "t2", "t3"]
+THOROUGH = ["q1", "q2", "kill", "t3", "t1", "t2", "t1sim", "t2sim"]
+SIM_BEHAVIOURS = 6000     # per worker
 NSHARDS = 12
 
 
@@ -67,14 +68,21 @@ def run(ctx, prop):
         cfg = "Batcher_%s.cfg" % name
         if not os.path.exists(os.path.join(vlib.SPEC, cfg)):
             continue
-        r = ctx.tlc("MCBatcher", cfg, workers=8, timeout=3000, xmx="8g", label=name)
+        sim = name.endswith("sim")
+        if sim:
+            r = ctx.tlc("MCBatcher", cfg, workers=4, simulate=SIM_BEHAVIOURS, depth=60, timeout=3000,
+                        xmx="6g", label=name)
+        else:
+            r = ctx.tlc("MCBatcher", cfg, workers=8, timeout=3000, xmx="10g", label=name)
         if r.violated:
             report(INV_PROP.get(r.violated, "C06"),
                    "Batcher.tla (%s): invariant %s violated by the design" % (name, r.violated),
                    {"kind": "tlc-counterexample", "counterexample": r.counterexample[:80]})
             continue
-        must = [a for a in ACTIONS if not (a in ("WhenEmpty", "SendWake") and name in ("q2",))]
-        ctx.require_actions(r, must, name)
+        must = [a for a in ACTIONS if not (a in ("WhenEmpty", "SendWake") and name in ("q2", "t3"))
+                and not (a == "TrySend" and name == "t3")]
+        if not sim:
+            ctx.require_actions(r, must, name)
         cases = os.path.join(ctx.out, "cases-%s.ndjson" % name)
         every = QUICK_EVERY.get(name, 1) if ctx.quick else 1
         keep = None if every == 1 else (lambda i: (i * 2654435761 + ctx.seed) % every == 0)
